@@ -13,6 +13,7 @@ import (
 	"encoding/json"
 	"fmt"
 	"math/big"
+	"net/http"
 	"net/url"
 	"regexp"
 	"strconv"
@@ -641,6 +642,11 @@ func (w *vfWorld) finishStep(p *vfPrepared) {
 	if p.call == nil {
 		return
 	}
+	if p.call.blocked {
+		// the recorder is still being written by the stuck handler: do not touch it
+		p.call.resp = &vfResp{Code: 0, Header: http.Header{}, Cookies: map[string]*http.Cookie{}}
+		p.call.req = nil
+	}
 	resp := p.call.finish()
 	ctx := p.call.ctx
 	w.logf("%s %s -> %d%s", p.step.Op, vfStepBrief(p.step), resp.Code, vfRespBrief(resp))
@@ -750,7 +756,23 @@ func (w *vfWorld) runPlan(steps []vfStep) {
 				fns = append(fns, p.call.exec)
 			}
 		}
-		if len(fns) > 0 && steps[i].Serial {
+		if len(fns) == 1 && w.detectBlocked && !steps[i].Serial {
+			// watchdog in simulated time: a handler that never returns (e.g. blocked on a
+			// subscriber that does not read) is reported instead of hanging the run
+			done := make(chan struct{})
+			fn := fns[0]
+			go func() { fn(); close(done) }()
+			select {
+			case <-done:
+			case <-time.After(120 * time.Second):
+				for _, p := range group {
+					if p.call != nil {
+						p.call.blocked = true
+					}
+				}
+			}
+			synctest.Wait()
+		} else if len(fns) > 0 && steps[i].Serial {
 			for k := range fns {
 				w.sched.runGroup(names[k:k+1], fns[k:k+1])
 			}
